@@ -192,6 +192,10 @@ def find_emitters(ctx, rule):
         # helpers of the same module are analysed inlined: statement-level (tail calls, procedures, result helpers) and
         # single-return helpers at expression level
         f = fold_consts(inlined(repo, tail_inlined(repo, hoist_calls(repo, f0), keep=_partial_result)))
+        if any(isinstance(c, ast.Call) and ((isinstance(c.func, ast.Attribute) and c.func.attr == "get" and isinstance(c.func.value, ast.Name) and isinstance(f.module.consts.get(c.func.value.id), ast.Dict)) or norm(c.func) in ("Counter", "collections.Counter")) for c in walk_own(f.node)):
+            from ..core import expand_table_dispatch, scalarise_counters
+
+            f = fold_consts(scalarise_counters(expand_table_dispatch(f)))  # tallies kept in a Counter keyed through a literal table
         f = inline_access_aliases(desugar_dict_get(with_str_consts(f)))
         recs = record_params(f, schema) | ({"self"} if f.cls == extras["class"] else set())
         if not recs:
